@@ -1402,6 +1402,7 @@ func TestVerifC09(t *testing.T) {
 		r.Incomplete("budget exhausted inside the families")
 	}
 	c09BuilderSkips(r)
+	c09BuilderSeq(r)
 	r.Note("families done after %.1fs", time.Since(t0).Seconds())
 
 	// ---- mass enumeration: document lists of length 1..3 over all byte strings of the alphabet
